@@ -105,6 +105,25 @@ impl Prop for C15 {
                 },
             ));
         }
+        {
+            let langs = langs.clone();
+            f.push(Family::new(
+                "unrounded-extremes",
+                Mode::Full,
+                "numbers and percentages with rounding switched OFF (set_number_configuration / set_percentage_configuration(d, remove, false), d in [2, 6], both settings of zero-fraction removal) for magnitudes at both ends [1e21, 1e24, 123456789012345680000, 1.25e-7, 1e-7, 0.000001, 0.5, 1234.5]: the printed form typed back in prints the same",
+                move |ch| {
+                    let x = *ch.pick(&[1e21, 1e24, 123456789012345680000.0, 1.25e-7, 1e-7, 0.000001, 0.5, 1234.5]);
+                    let d = *ch.pick(&[2u8, 6]);
+                    let remove = ch.flag();
+                    let atom = *ch.pick(&["NUMBER", "PERCENT"]);
+                    let l = ch.pick(&langs).clone();
+                    let mut cfg = Cfg::default();
+                    cfg.num = Some((d, remove, false));
+                    cfg.pct = Some((d, remove, false));
+                    Some(Case { kind: "unrounded-extremes".into(), cfg, lang: l, line: format!("[{}:{}]", atom, fx(x)) })
+                },
+            ));
+        }
         // money ------------------------------------------------------------------------------
         {
             // currencies that have a configured symbol or alias
@@ -176,11 +195,15 @@ impl Prop for C15 {
             f.push(Family::new(
                 "time",
                 Mode::Full,
-                &format!("times [0:00, 1:05, 11:30, 12:00, 13:45:59, 23:59:59] alone, with each of {} zone names, and with GMT forms [GMT+3, GMT-3:30, GMT+5:45], under default zones UTC and CET", nz),
+                &format!("times [0:00, 1:05, 11:30, 12:00, 13:45:59, 23:59:59] alone, with each of {} zone names, and with GMT forms [GMT+3, GMT-3:30, GMT+5:45], under default zones UTC and CET, and (bare, with the GMT forms and with every eighth zone name) under the western default zones EST and GMT-3:30", nz),
                 move |ch| {
                     let t = *ch.pick(&["0:00", "1:05", "11:30", "12:00", "13:45:59", "23:59:59"]);
-                    let tz = *ch.pick(&[None, Some("CET")]);
+                    let tz = *ch.pick(&[None, Some("CET"), Some("EST"), Some("GMT-3:30")]);
                     let k = ch.choose(zones.len() + 4);
+                    // the western default zones are crossed with the bare time and the GMT forms only
+                    if matches!(tz, Some("EST") | Some("GMT-3:30")) && k != 0 && k <= zones.len() && k % 8 != 1 {
+                        return None;
+                    }
                     let line = if k == 0 {
                         t.to_string()
                     } else if k <= zones.len() {
